@@ -54,6 +54,7 @@ func RunPrecompiledContract(p PrecompiledContract, input []byte, contract *Contr
 type setRewardValue struct {
 	am          AccountManager
 	blockHeight uint32
+	readOnly    bool // the precompile is running inside a static call
 }
 
 func (c *setRewardValue) RequiredGas(input []byte) uint64 {
@@ -61,6 +62,10 @@ func (c *setRewardValue) RequiredGas(input []byte) uint64 {
 }
 
 func (c *setRewardValue) Run(input []byte) ([]byte, error) {
+	// this precompile writes the reward table, which a read-only call must not do
+	if c.readOnly {
+		return false32Byte, errWriteProtection
+	}
 	newReward := &params.RewardJson{}
 	err := json.Unmarshal(input, newReward)
 	if err != nil {
@@ -134,6 +139,7 @@ func (c *setRewardValue) Run(input []byte) ([]byte, error) {
 func (c *setRewardValue) SetContext(evm *EVM) {
 	c.am = evm.am
 	c.blockHeight = evm.BlockHeight
+	c.readOnly = evm.interpreter.readOnly
 
 }
 
